@@ -327,7 +327,7 @@ pub fn decorate_role(rng: &mut Rng, r: &mut crate::session::Replica) {
         }
         plan.delay_at = Some(rng.below(plan.cuts.len() + 2));
         // odd = simulated time passes; even = the wall clock is stepped back (see SimReader::fill_buf)
-        plan.delay_secs = *rng.pick(&[11u64, 61, 3_601, 86_401, 2_678_401, 2, 3_600, 86_400]);
+        plan.delay_secs = *rng.pick(&[11u64, 61, 3_601, 86_401, 2_678_401, 3, 601, 2, 3_600, 86_400]);
         pre.push_str("slow-");
     }
     if !pre.is_empty() {
